@@ -30,7 +30,7 @@ P = 'circus.process:Process.'
 
 
 def check(run, ctx):
-    run.each(ctx, [r1, r2, r3, r4, r5])
+    run.each(ctx, [r1, r2, r3, r4, r5, r6])
 
 
 def flat(x):
@@ -306,3 +306,42 @@ def r5(run, ctx):
     ri = ctx.fn(R + '__init__')
     run.check('R5', 'self.buffer = buffer' in norm_text(ri.node), 'the buffer size is the '
               'configured one', ri, ri.node)
+
+
+def r6(run, ctx):
+    run.rule('R6', 'a worker is created with exactly the pipes the redirector will ask for')
+    # Redirector.get_process_pipes yields process.stdout when process.pipe_stdout and
+    # process.stderr when process.pipe_stderr; Process.spawn must request the PIPE for a
+    # channel under the same flag - otherwise the handle is None: add_redirections raises
+    # AttributeError between the creation of the child and its registration (the child runs
+    # untracked), or a requested channel is never read
+    from sa.idioms import reach_under, attr_truth
+    sp = ctx.fn('circus.process:Process.spawn')
+    cfg = ctx.cfg(sp)
+    popen = [n for n in ctx.live_nodes(sp) for c in n.calls() if astq.call_last(c) == 'Popen']
+    if not run.need('R6', popen, 'Popen call in Process.spawn', sp):
+        return
+    gp = ctx.fn('circus.stream.redirector:Redirector.get_process_pipes')
+    gtxt = norm_text(gp.node)
+    for ch in ('stdout', 'stderr'):
+        run.check('R6', astq.has_pattern(gtxt, "if process.pipe_%s: yield '%s', process.%s" % (ch, ch, ch)),
+                  'the redirector takes process.%s exactly when pipe_%s is set' % (ch, ch), gp, gp.node)
+        req = [n for n in ctx.live_nodes(sp) if n.kind == 'stmt' and isinstance(n.ast, ast.Assign)
+               and isinstance(n.ast.targets[0], ast.Subscript) and
+               astq.const_value(n.ast.targets[0].slice, None) == ch and
+               norm_text(n.ast.value).endswith('PIPE')]
+        if not run.need('R6', req, "request of a pipe for %s (extra['%s'] = PIPE)" % (ch, ch), sp,
+                        'workers are never given a %s pipe: their %s is not captured' % (ch, ch)):
+            continue
+        on = reach_under(cfg, cfg.entry, attr_truth('pipe_' + ch, True), avoid=req,
+                         labels_excluded=('exc', 'raise', 'reraise'))
+        off = reach_under(cfg, cfg.entry, attr_truth('pipe_' + ch, False),
+                          labels_excluded=('exc', 'raise', 'reraise'))
+        ok = not any(p.id in on for p in popen) and not any(q.id in off for q in req)
+        run.check('R6', ok, 'the %s pipe is requested exactly when pipe_%s is set' % (ch, ch),
+                  sp, req[0].ast,
+                  'Process.spawn requests the %s pipe under another condition than pipe_%s, the '
+                  'flag the redirector goes by: with %s_stream alone configured the handle is '
+                  'None, add_redirections raises after the child was created and before it is '
+                  'registered - the worker runs in no watcher\'s table' % (ch, ch, ch),
+                  construct='PIPE-FLAG-MISMATCH %s' % ch)
